@@ -113,6 +113,20 @@ def run(ctx):
         reqs.append({"op": "decomp", "n": 2, "a": gen.flat_bits(A)}); infos.append(("singular_rounded", A, None))
     impl = run_harness(reqs)
     model = run_driver(reqs)
+    # the same matrices through the PUBLIC matrix API of the crate built as a user's debug build (default features, debug assertions and
+    # overflow checks on): a singular or indefinite matrix is reported by an error there as well, not by a panic
+    from ..core import run_nolog
+    sub = list(range(0, len(reqs), 3 if ctx.quick else 2))
+    dres, derr = run_nolog([reqs[i] for i in sub])
+    if dres is None:
+        ctx.mismatch("the crate does not build with its default features", None, derr[-800:], None)
+    else:
+        for i, dba in zip(sub, dres):
+            ctx.count("debug_build_compared")
+            if dba.get("status") != impl[i].get("status") or (dba.get("status") == "ok" and dba.get("det") != impl[i].get("det")):
+                ctx.violation(f"debug build (debug assertions + overflow checks, default features): decompose_for_tropical gives {dba.get('status')}"
+                              f"{(' (' + str(dba.get('msg'))[:100] + ')') if dba.get('status') == 'panic' else ''}, the release build {impl[i].get('status')} "
+                              f"for a matrix of class {infos[i][0]}", dict(reqs[i], build="debug assertions"), expected=impl[i].get("status"), observed=dba.get("status"))
     for r, a, m, (cls, A, tol) in zip(reqs, impl, model, infos):
         n = r["n"]
         ctx.case([r["a"], r.get("tol")], nontrivial=(n >= 2 and (tol is not None or cls != "definite")),
@@ -179,6 +193,8 @@ def through_samples(ctx):
     S.run(ss)
     from .. import sample_checks as SCk
     SCk.generic_scalar_guard(ctx, [s for s in ss if s["tol"] >= 1e-13][:: 2], k=8, tol=1e-6)
+    # the stability test guards the rng entry point as well (same settings, same verdict as the x-space entry point on the drawn numbers)
+    SCk.rng_entry_agreement(ctx, [s for s in ss if s["tol"] >= 1e-13][:: 3], k=10)
     # the same requests with print_debug_info off (the runs above have it on: the Feynman parameters are read from the debug log)
     quiet = run_harness([dict(s["req"], debug=False) for s in ss])
     for s, qa in zip(ss, quiet):
